@@ -4,6 +4,7 @@ import (
 	"fmt"
 	"go/constant"
 	"go/token"
+	"regexp"
 	"strings"
 
 	"golang.org/x/tools/go/ssa"
@@ -305,6 +306,7 @@ func rulesC14(w *World, r *Report) {
 		r.Check(bad == "", "C14.R6", "whispertool.TimeSeries.TakeFrom:zero-series", w.pos(tf.Pos()), "step = from = until = 0 decodes to an absent series", "TimeSeries.TakeFrom: "+bad+" — what AppendTo writes for an unselected archive no longer decodes, and remote view/sum of such an archive fails where the local one succeeds")
 	}
 	ruleHeaderFirstRead(w, r, "C14.R5")
+	ruleSingleStoreOf(w, r, "C14.R2", "whispertool.Value.TakeFrom:bits", fn(w.Lib, "Value.TakeFrom"), regexp.MustCompile(`^math\.Float64frombits\(`), "the decoded value is exactly Float64frombits of the eight bytes", "NaN payloads and signed zeros no longer round-trip")
 	// R5 retry
 	r.Rule("C14.R5", "readHeader calls Header.TakeFrom at most twice, never inside a loop, the retry reads exactly WantedBufSize bytes and returns the second error", 1)
 	if rh := need(w, r, "C14.R5", w.Lib, "Whisper.readHeader"); rh != nil {
